@@ -47,6 +47,11 @@ def eraseFirst (p : Nat × Bool) : List (Nat × Bool) → List (Nat × Bool)
   | [] => []
   | q :: r => if q = p then r else q :: eraseFirst p r
 
+/-- what is held on BOTH ways into a join (the block was skipped / the block was executed and fell through): a lock taken
+    inside a conditional block is not held after it, an unlock inside it is not undone (pessimistic join; a block that ends in
+    `ret` does not reach the join) -/
+def meet (before after : List (Nat × Bool)) : List (Nat × Bool) := after.filter (before.contains ·)
+
 def holds (c : Chk) (m : Nat) (excl : Bool) : Bool :=
   c.held.any (fun q => q.1 == m && (q.2 || !excl))
 
@@ -69,7 +74,7 @@ def chkStep (pol : List (Nat × Guard)) (c : Chk) : Ev → Chk
   | .open => { c with blocks := (c.held, c.term) :: c.blocks, term := false }
   | .close => match c.blocks with
       | [] => c
-      | (h, t) :: r => { c with blocks := r, held := if c.term then h else c.held, term := t }
+      | (h, t) :: r => { c with blocks := r, held := if c.term then h else meet h c.held, term := t }
   | .ret => { c with term := true }
   | .goBegin | .fnBegin => { c with ctx := c.held :: c.ctx, held := [] }
   | .goEnd => match c.ctx with
@@ -120,6 +125,23 @@ def precedesAll (a : Ev) (p : Ev → Bool) (l : List Ev) : Bool :=
   | some i, some j => i < j
   | some _, none => true
   | none, _ => false
+
+/-- nesting depth (number of enclosing `open` … `close` blocks: if / for / switch / select bodies) of the first event equal
+    to `a`; `none` if there is none -/
+def depthOfFirst (a : Ev) (l : List Ev) : Option Nat :=
+  (l.foldl (fun (acc : Nat × Option Nat) e =>
+    match acc.2 with
+    | some _ => acc
+    | none => if e == a then (acc.1, some acc.1)
+              else match e with
+                | .open => (acc.1 + 1, none)
+                | .close => (acc.1 - 1, none)
+                | _ => acc) (0, none)).2
+
+/-- `a` occurs, its first occurrence is not inside any conditional block / loop, and no `ret` (return, goto, break, panic)
+    precedes it: the straight-line prefix of the function executes it on every path -/
+def unconditional (a : Ev) (l : List Ev) : Bool :=
+  depthOfFirst a l == some 0 && !((l.takeWhile (· != a)).contains .ret)
 
 open GocoinV.Gen.ConcFacts in
 /-- the policy table: function ↦ (shared variable ↦ guard). Names are the CANONICAL names of go/cmd/gen_c11: a field path
@@ -192,7 +214,7 @@ open GocoinV.Gen.ConcFacts in
 /-- structural protocol facts the transition systems below were written for, evaluated on the generated
     sequences (each must be `true`; `Props.C11.source_protocol_facts` checks them by kernel evaluation) -/
 structure ProtoFacts where
-  commitAbortFirst : Bool   -- CommitBlockTxs: abortWriting before commit() and before any header write
+  commitAbortFirst : Bool   -- CommitBlockTxs: abortWriting before commit() and before any header write, UNCONDITIONALLY (nesting depth 0, no `ret` before it)
   undoAbortFirst : Bool     -- UndoBlockTxs: abortWriting before any map / header write
   commitLocked : Bool       -- abortWriting / commit are called with db.Mutex held in CommitBlockTxs
   undoLocked : Bool
@@ -200,12 +222,12 @@ structure ProtoFacts where
   purgeLocked : Bool        -- … called with db.Mutex held
   abortPubLocked : Bool     -- AbortWriting holds db.Mutex around abortWriting
   idleLocked : Bool         -- Idle holds db.Mutex around Save
-  abortShape : Bool         -- abortWriting = check WIP; send token; Wait writingDone; non-blocking drain
-  saveShape : Bool          -- Save = check WIP; set WIP; Add writingDone; go save
+  abortShape : Bool         -- abortWriting = if WIP { send token; Wait writingDone; non-blocking drain } - whole event list with block structure and test polarity
+  saveShape : Bool          -- Save = if WIP { return }; set WIP; Add writingDone; go save - whole event list with block structure and test polarity
   saveWaitsFile : Bool      -- save: lastFileClosed.Wait before lastFileClosed.Add and before the file goroutine
   saveClrBeforeDone : Bool  -- save: WritingInProgress.Clr then writingDone.Done, both after the last map read
   closeShape : Bool         -- Close: writingDone.Wait then lastFileClosed.Wait
-  cloned : Bool             -- commitTxs: blUnsp gets a clone of tx.TxOut
+  cloned : Bool             -- commitTxs: EVERY store into the local map blUnsp is a clone of tx.TxOut (and there is one)
   deferWait : Bool          -- commitTxs: a deferred wg.Wait is installed before the first `go`
   publishLast : Bool        -- writeOne: rec.ipos is the last field written, inside db.mutex
   dataChanBuffered : Bool   -- save: data_channel has capacity ≥ 1 (hypothesis `0 < cap` of Props.C11.no_deadlock)
@@ -217,21 +239,37 @@ structure ProtoFacts where
 open GocoinV.Gen.ConcFacts in
 def protoFacts : ProtoFacts where
   commitAbortFirst := precedesAll (.call N_abortWriting) (fun e => e == .call N_commit || e == .wr N_UnspentDB_LastBlockHash || e == .wr N_UnspentDB_LastBlockHeight || e == .wr N_UnspentDB_HashMap) commitBlockTxs
+                        && unconditional (.call N_abortWriting) commitBlockTxs
   undoAbortFirst := precedesAll (.call N_abortWriting) (fun e => e == .wr N_UnspentDB_HashMap || e == .wr N_UnspentDB_LastBlockHash || e == .wr N_UnspentDB_LastBlockHeight || e == .call N_del) undoBlockTxs
+                      && unconditional (.call N_abortWriting) undoBlockTxs
   commitLocked := callsHeld N_abortWriting N_UnspentDB_Mutex commitBlockTxs && callsHeld N_commit N_UnspentDB_Mutex commitBlockTxs
   undoLocked := callsHeld N_abortWriting N_UnspentDB_Mutex undoBlockTxs
   purgeAbortFirst := precedesAll (.call N_abortWriting) (fun e => e == .wr N_UnspentDB_HashMap || e == .wr N_UnspentDB_LastBlockHash || e == .wr N_UnspentDB_LastBlockHeight) purgeUnspendable
                        && purgeUnspendable.contains (.wr N_UnspentDB_HashMap)
+                       && unconditional (.call N_abortWriting) purgeUnspendable
   purgeLocked := callsHeld N_abortWriting N_UnspentDB_Mutex purgeUnspendable
   abortPubLocked := callsHeld N_abortWriting N_UnspentDB_Mutex abortWritingPub && (skeleton abortWritingPub).contains (.call N_abortWriting)
   idleLocked := callsHeld N_Save N_UnspentDB_Mutex idle && (skeleton idle).contains (.call N_Save)
-  abortShape := skeleton abortWriting == [.atomic N_UnspentDB_WritingInProgress, .send N_UnspentDB_abortwritingnow, .wgWait N_UnspentDB_writingDone,
-                                          .selBegin, .selRecv N_UnspentDB_abortwritingnow, .selDefault, .selEnd]
-  saveShape := skeleton savePub == [.atomic N_UnspentDB_WritingInProgress, .atomic N_UnspentDB_WritingInProgress, .wgAdd N_UnspentDB_writingDone, .goCall N_save]
+  abortShape :=
+    -- the WHOLE event list incl. block structure and the polarity of the test (`.neg` = `if !c`), not only the skeleton:
+    -- `if WIP { send; Wait; select { case <-ch: default: } }`, or the early-return spelling `if !WIP { return }; send; …`
+    let drain : List Ev := [.selBegin, .open, .selRecv N_UnspentDB_abortwritingnow, .close, .open, .selDefault, .close, .selEnd]
+    abortWriting == [.atomic N_UnspentDB_WritingInProgress, .open, .send N_UnspentDB_abortwritingnow, .wgWait N_UnspentDB_writingDone] ++ drain ++ [.close]
+    || abortWriting == [.atomic N_UnspentDB_WritingInProgress, .neg, .open, .ret, .close, .send N_UnspentDB_abortwritingnow, .wgWait N_UnspentDB_writingDone] ++ drain
+  saveShape :=
+    -- whole event list: `if WIP { return }; Set; Add; go save; return` (the branch taken when a save is running RETURNS), or
+    -- `if !WIP { Set; Add; go save; return }; return`
+    savePub == [.atomic N_UnspentDB_WritingInProgress, .open, .ret, .close, .atomic N_UnspentDB_WritingInProgress, .wgAdd N_UnspentDB_writingDone, .goCall N_save, .ret]
+    || savePub == [.atomic N_UnspentDB_WritingInProgress, .neg, .open, .atomic N_UnspentDB_WritingInProgress, .wgAdd N_UnspentDB_writingDone, .goCall N_save, .ret, .close, .ret]
   saveWaitsFile := precedesAll (.wgWait N_UnspentDB_lastFileClosed) (fun e => e == .wgAdd N_UnspentDB_lastFileClosed || e == .goBegin) save
   saveClrBeforeDone :=
     let sk := save.filter (fun e => e == .atomic N_UnspentDB_WritingInProgress || e == .wgDone N_UnspentDB_writingDone || e == .rd N_UnspentDB_HashMap)
     sk.getLast? == some (.wgDone N_UnspentDB_writingDone) && sk.dropLast.getLast? == some (.atomic N_UnspentDB_WritingInProgress)
+      -- save touches WritingInProgress exactly once (the final Clr), at nesting depth 0, and its only writingDone.Done likewise
+      && (save.filter (· == .atomic N_UnspentDB_WritingInProgress)).length == 1
+      && depthOfFirst (.atomic N_UnspentDB_WritingInProgress) save == some 0
+      && (save.filter (· == .wgDone N_UnspentDB_writingDone)).length == 1
+      && depthOfFirst (.wgDone N_UnspentDB_writingDone) save == some 0
   closeShape := (skeleton close).filter (fun e => e == .wgWait N_UnspentDB_writingDone || e == .wgWait N_UnspentDB_lastFileClosed)
                   == [.wgWait N_UnspentDB_writingDone, .wgWait N_UnspentDB_lastFileClosed]
   cloned := blUnspIsClone
